@@ -39,6 +39,10 @@ pub fn drive(args: &[String]) {
         let redo = |img: &Image| { let px: Vec<RGBA> = img.iter().copied().collect(); let w = img.width(); Image::from(SurfaceOwned::new_with(img.size(), |p| px[p.row * w + p.col])) };
         pool.push(redo(&pool[1]));
         pool.push(redo(&pool[2]));
+        // the same row-major pixel stream with other dimensions (3x2 -> 2x3 and 6x1): different images
+        let stream: Vec<RGBA> = pool[1].iter().copied().collect();
+        pool.push(Image::from(SurfaceOwned::new_with(Size::new(2, 3), |p| stream[p.row * 3 + p.col])));
+        pool.push(Image::from(SurfaceOwned::new_with(Size::new(6, 1), |p| stream[p.row])));
         match hid % 4 {
             0 => pool.push(mk(24, 32)),
             1 => pool.push(mk(40, 41)),
